@@ -217,6 +217,18 @@ def record(lentil, tier, seed):
         ok_l = False
     if not ok_l:
         leaf.append(('boundary-slice-of-a-nested-list', {'mask': lst}))
+    # the offset of a slice is a SIGNED number of samples whatever integer type the slice bounds and the shape arrive in
+    a_u = np.zeros((9, 12))
+    a_u[2:7, 1:5] = 1
+    ref_off = tuple(int(v) for v in lentil.helper.slice_offset(lentil.helper.boundary_slice(a_u), a_u.shape))
+    for udt in (np.uint8, np.uint16, np.uint64, np.int8):
+        s_u = (slice(udt(2), udt(7)), slice(udt(1), udt(5)))
+        try:
+            got_off = tuple(int(v) for v in lentil.helper.slice_offset(s_u, np.array(a_u.shape, dtype=udt)))
+        except Exception as ex:
+            got_off = type(ex).__name__
+        if got_off != ref_off:
+            leaf.append(('slice-offset-depends-on-the-integer-type', {'dtype': np.dtype(udt).name, 'expected': list(ref_off), 'observed': got_off if isinstance(got_off, str) else list(got_off)}))
     # a rotation is a number of degrees however it is typed (a python int, a numpy integer of any width as read from a header):
     # the drawing is the same, and a rectangle turned by 180 degrees is the rectangle
     for _ in range(6 if q else 30):
